@@ -2,7 +2,8 @@
 Mirror of the (repaired) versioned fetcher, /repo/internal/db/fetcher/versioned.go:
 `seekNext` copies the target and every ancestor (all heads, all links) into a scratch store and queues
 each composite once; `seekTo` sorts the queue by height and `merge`s each queued block once, which applies
-the block's delta and then the linked (field) blocks, each once.  Only the visible values matter for the
+the block's delta and then the linked (field) blocks, each once (the recursion over links is bounded by the number of
+stored blocks, which never limits it).  Only the visible values matter for the
 query, head bookkeeping of the scratch store is not modelled.  Core-only.
 -/
 import DefraModel.Crdt.Model
@@ -26,6 +27,6 @@ def vmerge (bs : Blocks) : Nat → (Vals × List Nat) → Nat → (Vals × List 
 /-- state of the scratch store after `seekTo c` -/
 def versionedVals (bs : Blocks) (c : Nat) : Vals :=
   let queue := sortByHeight ((seekQueue bs c).filterMap bs.get?)
-  (queue.foldl (fun acc b => vmerge bs 4 acc b.id) (({} : Vals), ([] : List Nat))).1
+  (queue.foldl (fun acc b => vmerge bs (bs.length + 1) acc b.id) (({} : Vals), ([] : List Nat))).1
 
 end Defra.Crdt
